@@ -32,6 +32,7 @@ THIS SOFTWARE, EVEN IF ADVISED OF THE POSSIBILITY OF SUCH DAMAGE.
 
 #pragma once
 
+#include <rs_driver/utility/verif_hook.hpp>
 #include <mutex>
 #include <condition_variable>
 #include <thread>
@@ -59,11 +60,16 @@ public:
 #endif
       queue_.push(value);
       size = queue_.size();
+      RS_VERIF_EVENT(this, 'p', verifId(value), size);
     }
 
 #ifndef ENABLE_WAIT_IF_QUEUE_EMPTY
     if (empty)
       cv_.notify_one();
+#ifdef RS_DRIVER_VERIF
+    if (empty)
+      RS_VERIF_EVENT(this, 'n', nullptr, 0);
+#endif
 #endif
 
     return size;
@@ -79,6 +85,7 @@ public:
       value = queue_.front();
       queue_.pop();
     }
+    RS_VERIF_EVENT(this, 'o', verifId(value), queue_.size());
 
     return value;
   }
@@ -98,8 +105,10 @@ public:
       {
         value = queue_.front();
         queue_.pop();
+        RS_VERIF_EVENT(this, 'w', verifId(value), queue_.size());
         return value;
       }
+      RS_VERIF_EVENT(this, 'w', nullptr, 0);
     }
 
     std::this_thread::sleep_for(std::chrono::microseconds(1000));
@@ -116,6 +125,7 @@ public:
       value = queue_.front();
       queue_.pop();
     }
+    RS_VERIF_EVENT(this, 'w', verifId(value), queue_.size());
 
     return value;
 #endif
@@ -126,6 +136,7 @@ public:
     std::queue<T> empty;
     std::lock_guard<std::mutex> lg(mtx_);
     swap(empty, queue_);
+    RS_VERIF_EVENT(this, 'c', nullptr, 0);
   }
 
 private:
